@@ -25,3 +25,20 @@ def confirmer(rep, pairs):
             return None, ans[0][:300]
         return False, "; ".join(ans)[:300]
     return confirm
+
+
+def merge_k_r(ctx, kcov, rcov, native_traces=0):
+    """A property decided partly by engine K (bounded) and partly by engine R (unbounded) reports the weaker level."""
+    ctx.level = "model_checking"
+    cov = dict(kcov)
+    cov["regular_language_obligations"] = {k: rcov.get(k) for k in ("obligations", "discharged", "checker_cmd", "queries", "solver_time_s", "unbounded")}
+    cov["samples"] = kcov.get("samples", []) + rcov.get("samples", [])
+    cov["traces_validated_against_impl"] = kcov.get("traces_validated_against_impl", 0) + native_traces
+    cov["trusted_base"] = rcov.get("trusted_base")
+    for k in ("translator_validation", "functions_encoded", "outside_the_claim"):
+        if k in rcov and k not in ("functions_encoded", "outside_the_claim"):
+            cov[k] = rcov[k]
+    cov["functions_encoded"] = list(kcov.get("functions_encoded", [])) + [x for x in rcov.get("functions_encoded", []) if x not in kcov.get("functions_encoded", [])]
+    cov["outside_the_claim"] = list(kcov.get("outside_the_claim", [])) + [x for x in rcov.get("outside_the_claim", []) if x not in kcov.get("outside_the_claim", [])]
+    ctx.coverage.clear()
+    ctx.coverage.update(cov)
